@@ -32,7 +32,25 @@ func extractReplacements(p *Prog, f *ssa.Function) (pairs []replPair, simultaneo
 	if !ok || c.Common().StaticCallee() == nil || (c.Common().StaticCallee().Name() != "AsValue" && c.Common().StaticCallee().Name() != "AsSafeValue") {
 		return nil, false, nil, "result is not AsValue(...)/AsSafeValue(...): " + p.VN(v)
 	}
-	return extractReplacementChain(p, stripConv(c.Common().Args[0]))
+	arg := stripConv(c.Common().Args[0])
+	// the table may live in a helper (escapeHTML(s string) string) that the filter only wraps
+	if hc, isCall := arg.(*ssa.Call); isCall {
+		if h := hc.Common().StaticCallee(); h != nil && p.InPkg(h) && h.Blocks != nil && h.Signature.Recv() == nil && h.Signature.Results().Len() == 1 {
+			if hr := returnsOf(h); len(hr) == 1 {
+				pairs, simultaneous, base, err = extractReplacementChain(p, stripConv(res(hr[0], 0)))
+				if err == "" {
+					if pa, isP := stripLoad(base).(*ssa.Parameter); isP {
+						args := callArgs(hc.Common())
+						if i := indexOfParam(h, pa); i < len(args) {
+							base = args[i]
+						}
+					}
+					return pairs, simultaneous, base, ""
+				}
+			}
+		}
+	}
+	return extractReplacementChain(p, arg)
 }
 
 // extractReplacementChain reads the replacement table from the text value itself.
